@@ -53,6 +53,9 @@ ASSUMPTIONS = [
     "definitions whose placeholder sits in a unit-class tag, with numeric / non-numeric values written with a valid "
     "unit / a bad unit / no unit, are an input dimension of the wrongly-valued-Def rule (tested only: the verdict of "
     "validate_def_value_units is a fact input)",
+    "the conforming stream contains annotations with SEVERAL top-level temporal groups (Onset / Offset / Inset, each "
+    "with its own Def, inner group where allowed) in every order; the order of independent top-level groups is "
+    "irrelevant to the rules (the model judges each group on its own: validate_onset_offset is a flat_map)",
     "definition SHAPES (no contents, one tag, one group, nested groups, with/without placeholder) and definition NAMES "
     "are input dimensions of the generator (ASCII, plain non-ASCII, letters whose lower() differs "
     "from casefold(); modern-character schemas only) and the definitions reach the validator through two entry points "
@@ -323,6 +326,8 @@ def corpus_cases():
     add("8_3_0", "Sensory-event, ((Red, Red))", False, "TAG_EXPRESSION_REPEATED", "repeat_nested")
     add("8_3_0", "Sensory-event, (((Red, Blue), (Blue, Red)))", False, "TAG_EXPRESSION_REPEATED", "repeat_nested")
     add("8_3_0", "(Def-expand/CueDef/Target, (Label/Target, Label/Fixation))", False, None, "v_defexpand_placeholder_sibling")
+    add("8_3_0", "(Def/OnDef, Offset), (Def/OnVal/3, Onset, (Red, Blue))", False, None, "v_multi_temporal")
+    add("8_3_0", "(Def/OnVal/3, Onset, (Red, Blue)), (Def/OnDef, Offset), (Def/MyDef, Inset, (Green))", False, None, "v_multi_temporal")
     add("8_3_0", "Label/#", False, "PLACEHOLDER_INVALID", "corpus-mutant")
     add("8_3_0", "Label/#", True, None, "corpus-valid")
     add("8_3_0", "Red, {col}", False, "CHARACTER_INVALID", "corpus-mutant")
@@ -380,6 +385,36 @@ def gen_cases(tier, seed, keys, n_random):
                 tgt.insert(rng.randint(0, len(tgt)), g)
                 cases.append(dict(schema=key, text=G.render(t2, rng), ph=ph, expect=None,
                                   rule="v_defexpand_placeholder_sibling"))
+            if V.has_defs and len(V.temporal) >= 2 and rng.random() < 0.25:
+                # SEVERAL top-level temporal groups in one annotation, in every order (each with its own Def; an
+                # Onset/Inset group may carry one inner group, an Offset group none): conforming => no error
+                defs_pool = ["Def/OnDef", "Def/OnDef2", "Def/MyDef", "Def/AltDef", "Def/ExtraDef", "Def/OnVal/3",
+                             "Def/ValDef/abc", "Def/LenDef/3 m"]
+                rng.shuffle(defs_pool)
+                fill = [n["short"] for n in rng.sample(V.plain, min(6, len(V.plain)))]
+                grps = []
+                kinds = [rng.choice(V.temporal) for _ in range(rng.randint(2, 3))]
+                if "Offset" in V.temporal and "Offset" not in kinds:
+                    kinds[rng.randrange(len(kinds))] = "Offset"
+                if all(k == "Offset" for k in kinds):
+                    kinds[0] = rng.choice([x for x in V.temporal if x != "Offset"])
+                for j, k in enumerate(kinds):
+                    g = [defs_pool[j], k]
+                    if k != "Offset" and rng.random() < 0.8:
+                        g.append([fill[2 * j % len(fill)]] + ([fill[(2 * j + 1) % len(fill)]] if rng.random() < 0.5 else []))
+                    if "Delay" in V.duration_top and rng.random() < 0.15:
+                        g.append("Delay/2 s")
+                    rng.shuffle(g)
+                    grps.append(g)
+                rng.shuffle(grps)
+                t2 = [x for x in G.deep(tree)
+                      if not (isinstance(x, list) and any(isinstance(y, str) and y.split("/")[0] in V.temporal + ["Def"]
+                                                          or (isinstance(y, str) and y.startswith("Def/")) for y in x))
+                      and not (isinstance(x, str) and x.casefold().startswith("def/"))]
+                for g in grps:
+                    t2.insert(rng.randint(0, len(t2)), g)
+                cases.append(dict(schema=key, text=G.render(t2, rng), ph=ph, expect=None,
+                                  rule="v_multi_temporal"))
             if V.has_defs and rng.random() < 0.05:
                 t2 = G.deep(tree)
                 t2.insert(rng.randint(0, len(t2)), rng.choice([[["Blue", "Red"], "Def-expand/AltDef"],
